@@ -203,9 +203,6 @@ def where_ (c : List Bool) (a b : List Int) : List Int :=
 def cumsum (a : List Int) : List Int := (a.foldl (fun (acc : List Int × Int) x => (acc.1 ++ [acc.2 + x], acc.2 + x)) ([], 0)).1
 /-- `len(np.unique(a))` -/
 def uniqueCount (a : List Int) : Int := (a.eraseDups.length : Int)
-/-- `np.setdiff1d(a, b, assume_unique=True)`: the entries of `a` that do not occur in `b`, in the order of `a` (with
-`assume_unique=True` numpy neither sorts nor de-duplicates; `b` may contain repetitions) -/
-def setdiff1dAU (a b : List Int) : List Int := a.filter (fun x => !b.contains x)
 /-- `np.setdiff1d(a, b)`: the sorted distinct values of `a` that do not occur in `b` -/
 def setdiff1d (a b : List Int) : List Int := ((a.filter (fun x => !b.contains x)).eraseDups).mergeSort (fun x y => decide (x ≤ y))
 /-- `bool(np.all(mask))` -/
